@@ -612,3 +612,97 @@ PROPS = {
                     'FP-P, FP-NP and FIFO contain no term, shift or offset in excess of the equations '
                     '(pessimistic direction)'),
 }
+
+
+# ---------------------------------------------------------------- dependencies between properties
+#
+# A behavioural property of an analysis also rests on the model code it calls: a change in `Sporadic::steps_iter` breaks
+# C01..C07 (an offset drops out of every search space) although the analyses' own equations are untouched.  Each check
+# therefore also runs the clause sets of the properties it depends on; a clause that fails there is reported here as
+# well (under its own rule and key, marked as a dependency).  Known findings stay with their home property.
+
+DEPS = {
+    'C01': ['C11', 'C16', 'C14', 'C10'],
+    'C02': ['C11', 'C16', 'C14', 'C10'],
+    'C03': ['C11', 'C16', 'C14', 'C10'],
+    'C04': ['C09', 'C11', 'C16', 'C14', 'C10'],
+    'C05': ['C09', 'C11', 'C16', 'C14', 'C10'],
+    'C06': ['C11', 'C16'],
+    'C07': ['C11', 'C16', 'C09'],
+    'C10': ['C12', 'C13'],
+    'C11': ['C10', 'C13'],
+    'C12': ['C11', 'C10'],
+    'C16': ['C14', 'C10'],
+    'C17': ['C06', 'C07', 'C09', 'C14', 'C10'],
+    'C18': ['C10', 'C11', 'C12', 'C13', 'C14', 'C16'],
+    'C19': ['C11', 'C16'],
+}
+
+
+class DepReport:
+    """recording interface of Report for a dependency's clause set: failures are forwarded to the depending report"""
+
+    def __init__(self, parent, home):
+        from .report import load_known
+        self.parent, self.home = parent, home
+        self.prop = parent.prop
+        self.tier, self.seed = parent.tier, parent.seed
+        self.known = load_known(home)
+        self.instances = []
+        self.infra_errors = parent.infra_errors
+        self.functions = parent.functions
+        self.extra = {}
+        self.n_ok = 0
+        self.violations = []
+
+    def ok(self, rule, key, *a, **k):
+        self.instances.append(key)
+        self.n_ok += 1
+
+    def bad(self, rule, key, where, fact, expected=None, direction=None, fn=None, why=None):
+        self.instances.append(key)
+        if key in self.known:
+            return      # a recorded finding of the home property: reported (KNOWN-FINDING) by that property's check
+        self.violations.append(key)
+        self.parent.bad(rule, key, where, fact, expected, direction=direction, fn=fn,
+                        why=((why + ' ') if why else '') + f'[a clause of {self.home}, on which {self.prop} depends]')
+
+    def floor(self, name, found, minimum, where='(crate)'):
+        if found < minimum:
+            self.bad('FLOOR', f'FLOOR:{name}', where, f'only {found} instance(s) of {name} found', f'at least {minimum}',
+                     why='an anchor of this rule disappeared; the rule would pass vacuously')
+
+    def fixture(self, name, fired):
+        self.parent.fixture(name, fired)
+
+    def rule(self, *a):
+        pass
+
+    def assume(self, *a):
+        pass
+
+    def undecided_note(self, *a, **k):
+        pass
+
+
+def _with_deps(p, fn):
+    def run(ctx, rep):
+        out = fn(ctx, rep)
+        seen = getattr(rep, 'dep_seen', None)
+        if seen is None:
+            seen = rep.dep_seen = {p}
+        for home in DEPS.get(p, []):
+            if home in seen:
+                continue        # already part of this run (dependencies may be mutual)
+            seen.add(home)
+            sub = DepReport(rep, home)
+            sub.dep_seen = seen
+            PROPS[home](ctx, sub)
+            rep.rule(f'DEP:{home}', f'the clause set of {home} (the model code this property rests on), run on the same tree; failures are reported here under their own rule and key')
+            if not sub.violations:
+                rep.ok(f'DEP:{home}', f'DEP:{home}', '(crate)', f'{sub.n_ok} clause instance(s) of {home} hold', nontrivial=True)
+        return out
+    return run
+
+
+PROPS = {p: _with_deps(p, fn) for p, fn in PROPS.items()}
